@@ -29,7 +29,11 @@ class CausalChecker(object):
             if factor.args[0] == self.var:
                 return True
 
-            p = sym.Poly(factor.args[0], self.var)
+            try:
+                p = sym.Poly(factor.args[0], self.var)
+            except sym.PolynomialError:
+                # Argument is not a polynomial in var, e.g., Heaviside(sin(t))
+                return False
             coeffs = p.all_coeffs()
             if len(coeffs) != 2:
                 return False
